@@ -12,7 +12,7 @@ META = {
             'number of rounds (given DiffClassLaws: same-major / same-major.minor / same are transitive) and the loop stops within |versions| rounds (given HonoursPins: '
             're-resolution yields the pinned version); every Relax step builds the new requirement from a version strictly above the highest matching one with an allowed '
             'difference; suggestMavenVersion (after fixes 3e9bb9ee, 63128997) proposes only known versions STRICTLY above current with an allowed difference, for every input '
-            '(full strength; a range no known version satisfies keeps the requirement); level None touches nothing in all three. '
+            '(full strength; a range no known version satisfies keeps the requirement), and Suggest does so for EVERY requirement of a manifest against that requirement\'s own version (C11_update_patch); level None touches nothing in all three. '
             'With several packages every round judges each package against the version resolved at the start of that round (C11_override_multi_step); a pin chosen that way can be '
             'overtaken by another override (known finding C11/override-pin-overtaken, witness proved). Both assumed laws are checked on every generated universe.',
     'note': 'Trusted: Lean kernel (axioms propext/Quot.sound/Classical.choice at most); deps.dev semver (Compare, Difference, constraint matching) and the Maven/npm resolvers are '
@@ -25,7 +25,7 @@ O = 'Scalibr.Override.'
 R = 'Scalibr.Relax.'
 S = 'Scalibr.Suggest.'
 THEOREMS = [U + 'C11_allows_table', U + 'C11_allows_meaning', O + 'C11_override_step', O + 'C11_cumulative', O + 'C11_terminates', O + 'C11_terminates_bound',
-            O + 'C11_none_untouched_override', 'Scalibr.OverrideMulti.C11_override_multi_step', 'Scalibr.OverrideMulti.C11_none_untouched_multi', 'Scalibr.OverrideMulti.C11_override_pin_overtaken_witness', R + 'C11_relax_step', R + 'C11_none_untouched_relax', S + 'C11_update_step', S + 'C11_update_no_current', S + 'C11_update_reported',
+            O + 'C11_none_untouched_override', 'Scalibr.OverrideMulti.C11_override_multi_step', 'Scalibr.OverrideMulti.C11_none_untouched_multi', 'Scalibr.OverrideMulti.C11_override_pin_overtaken_witness', R + 'C11_relax_step', R + 'C11_none_untouched_relax', S + 'C11_update_step', S + 'C11_update_no_current', S + 'C11_update_reported', S + 'C11_update_patch',
             S + 'C11_none_untouched_update', S + 'C11_update_fixed_witnesses']
 
 
@@ -60,7 +60,9 @@ def run(ctx):
                 'a few guava/commons universes) through the real suggestMavenVersion; ov = (level, direct or transitive dependency on g:p, 1-12 Maven versions, 1-3 vulnerabilities with fixed / '
                 'last_affected / explicit lists) through the real override patchVulns loop with in-memory resolve client and local matcher; mo = three Maven packages (two direct, one transitive whose version depends on the '
                 'direct ones; 2-6 versions each with patch/minor/major steps), 2-4 vulnerability records of which about half affect two packages, never-fixed and windowed advisories on the transitive package, per-package levels '
-                '(major/minor/patch/none), through the same real loop, the resolver tabulated per (direct, direct) pair; every written override is judged against the version the package resolves to WITHOUT it in the final manifest. thorough adds every subset of 6 versions x level x '
+                '(major/minor/patch/none), through the same real loop, the resolver tabulated per (direct, direct) pair; every written override is judged against the version the package resolves to WITHOUT it in the final manifest; '
+                'up = a pom that declares the same groupId:artifactId several times with different versions (jar / test-jar / classifier variants in <dependencies>, dependencyManagement, a profile, a pluginManagement plugin; '
+                'versions across major and minor boundaries, ranges, unknown versions; per-package and default levels; IgnoreDev) through the real public Update, judged per requirement on result.Patches and per declaration on the re-read pom. thorough adds every subset of 6 versions x level x '
                 '1-2 chained vulnerabilities (override) and 25 requirements x 4 levels x 3 universes (relax). non-trivial = the real code changed something; distinct = distinct case lines')
     gen_ok = regenerate_allows(ctx)
     ok, _ = ctx.lean_build(['Scalibr.Properties.C11', 'drv_c11'])
@@ -68,7 +70,7 @@ def run(ctx):
     if ctx.tier == 'thorough':
         proofs_ok = ctx.leanchecker('Scalibr.Properties.C11') and proofs_ok
     n = {'quick': 4000, 'thorough': 40000}[ctx.tier]
-    KEYS = ['r', 'final', 'greater', 'pins', 'res']
+    KEYS = ['r', 'final', 'greater', 'pins', 'res', 'ups', 'pom']
 
     def agree(fi, fm):
         return all(fi.get(k) == fm.get(k) for k in KEYS)
@@ -85,6 +87,8 @@ def run(ctx):
             return r.startswith('update')
         if op == 'mo':
             return r == 'ok' and fm.get('rounds', '0') != '0'
+        if op == 'up':
+            return fi.get('ups', '-') != '-'
         return r == 'ok' and fi.get('final') != case.split(' | ')[1].split(' ')[1]
 
     def oracle(case, fi, fm):
@@ -108,6 +112,22 @@ def run(ctx):
                 return 'override ended at version #%s: not the base and not strictly above it with an allowed difference to the base' % fi.get('final')
             if fm.get('laws') != '1' and int(fi.get('final', '-1')) < int(case.split(' | ')[1].split(' ')[1]):
                 return 'override ended below the base'
+        elif op == 'up':
+            if r != 'ok':
+                return 'Update on a whole pom: ' + r
+            oks = fm.get('oks', '').split(';')
+            # every reported update is judged against ITS OWN requirement (okset of that requirement)
+            if fi.get('ups', '-') != '-':
+                for u in fi['ups'].split(','):
+                    i, _, v = u.partition(':')
+                    if not (i.isdigit() and v.isdigit() and int(i) < len(oks) and bit(oks[int(i)], int(v))):
+                        return ('Update reports requirement #%s -> version #%s: not a known version strictly above that requirement\'s own version with a difference '
+                                'its package\'s level allows' % (i, v))
+            # … and so is every declaration of the re-read pom: the reported target, or untouched
+            want = fm.get('pom', fm.get('pomd'))
+            got = fi.get('pom', fi.get('pomd'))
+            if want is not None and got != want:
+                return 'Update: the re-read pom has versions %s per declaration, the reported updates give %s' % (got, want)
         elif op == 'mo':
             if r != 'ok':
                 return 'override loop (several packages): ' + r
@@ -146,6 +166,8 @@ def run(ctx):
     def finding_class(case, fi, fm):
         if not agree(fi, fm):
             return None
+        if case.startswith('up ') and 'pomd' in fm and fi.get('ups') == fm.get('ups') and fi.get('pomd') != fm.get('pomd'):
+            return 'C11/pom-origin-ignored'      # the reported updates are right; the writer addressed the wrong one of two declarations with one key
         c = fm.get('cls', '-')
         return c if c != '-' else None
 
@@ -159,6 +181,8 @@ def run(ctx):
         extra = ' rounds=%s laws=%s' % (fm.get('rounds'), fm.get('laws')) if op == 'ov' else (' rounds=%s' % fm.get('rounds') if op == 'mo' else '')
         if op == 'mo':
             return 'mo r=%s%s' % (r, extra)
+        if op == 'up':
+            return 'up r=%s updates=%s samekey=%s' % (r, 'some' if fi.get('ups', '-') != '-' else 'none', '1' if 'pomd' in fm else '0')
         return '%s level=%s r=%s%s' % (op, case.split(' ')[1], r, extra)
 
     lib.standard_stream(ctx, gen='c11gen', driver='drv_c11', gen_args=['-seed', str(ctx.seed), '-n', str(n), '-tier', ctx.tier],
